@@ -18,6 +18,9 @@ namespace smt
             return *this;
 
         t.ptr->ref_count++;
+        ptr->ref_count--;
+        if (ptr->ref_count == 0) // the overwritten node is not referenced any more..
+            delete ptr;
         ptr = t.ptr;
         return *this;
     }
